@@ -234,10 +234,16 @@ func (d *db) removeAllLocked(shardID uint64, replicaID uint64, newLog bool) erro
 	ve := versionEdit{
 		deletedFiles: make(map[deletedFileEntry]*fileMetadata),
 	}
+	var candidates []fileNum
 	for fn := range v.files {
 		if fn != d.mu.versions.manifestFileNum && fn != d.mu.logNum {
-			ve.deletedFiles[deletedFileEntry{fn}] = &fileMetadata{fileNum: fn}
+			candidates = append(candidates, fn)
 		}
+	}
+	// in the multiplexed log mode the db is shared by multiple raft nodes, log
+	// files still referenced by the other nodes must be kept
+	for _, fn := range d.mu.nodeStates.getObsolete(candidates) {
+		ve.deletedFiles[deletedFileEntry{fn}] = &fileMetadata{fileNum: fn}
 	}
 	d.mu.versions.logLock()
 	if err := d.mu.versions.logAndApply(&ve, d.dataDir); err != nil {
